@@ -617,10 +617,46 @@ func child() int {
 		return 2
 	}
 	bad := 0
+	// two passes: as started, and after the TZ VARIABLE of the environment has been changed inside the running process
+	// (os.Setenv - a configuration loader, a child-process helper): the zone of the process is what it was at start-up, the
+	// variable is not read again
+	for pass := 0; pass < 3; pass++ {
+		if pass == 2 {
+			// the same zone the way a host configured through /etc/localtime has it - a location that is NAMED "Local" - while
+			// the TZ variable (still changed, see pass 1) names another zone
+			if len(cases) == 0 {
+				break
+			}
+			data, err := os.ReadFile("/usr/share/zoneinfo/" + cases[0].Zone)
+			if err != nil {
+				break
+			}
+			loc, err := time.LoadLocationFromTZData("Local", data)
+			if err != nil {
+				break
+			}
+			time.Local = loc
+		}
+		if pass == 1 {
+			_ = time.Now().Local().String() // (the process zone is initialised by now)
+			other := "Pacific/Kiritimati"
+			if len(cases) > 0 && cases[0].Zone == other {
+				other = "America/Anchorage"
+			}
+			os.Setenv("TZ", other)
+		}
+		bad += childPass(cases, pass)
+	}
+	fmt.Fprintf(childOut, "CHILD-DONE %d cases, %d failures\n", len(cases), bad)
+	return 0
+}
+
+func childPass(cases []dCase, pass int) int {
+	bad := 0
 	for _, c := range cases {
 		if time.Local.String() != "Local" && time.Local.String() != c.Zone {
 			fmt.Fprintln(childOut, "CHILD-HARNESS-ERROR unexpected time.Local", time.Local)
-			return 2
+			return 1 << 20
 		}
 		var site, msg string
 		switch c.Kind {
@@ -640,12 +676,17 @@ func child() int {
 		}
 		if site != "" {
 			b, _ := json.Marshal(c)
+			if pass >= 1 {
+				msg += " (after the TZ variable of the environment was changed inside the running process)"
+			}
+			if pass == 2 {
+				msg += " (process zone: the same rules in a location named \"Local\", as on a host configured through /etc/localtime)"
+			}
 			fmt.Fprintf(childOut, "CHILD-FAIL\t%s\t%s\t%s\n", site, b, msg)
 			bad++
 		}
 	}
-	fmt.Fprintf(childOut, "CHILD-DONE %d cases, %d failures\n", len(cases), bad)
-	return 0
+	return bad
 }
 
 func TestChildTZ(t *testing.T) {
